@@ -11,7 +11,8 @@ THEOREMS = ["TLVerif.Props.C40." + t for t in [
     "request_roundtrip", "request_extras_unchanged", "prepare_shape", "request_timeout",
     "response_roundtrip", "response_flags_subset", "response_extras_unchanged", "error_roundtrip", "error_codes",
     "error_code_preserved", "error_code_zero_is_unknown", "no_result_no_answer",
-    "exchange_ok", "exchange_err", "body_tag_hypothesis_needed", "result_tag_hypothesis_needed",
+    "exchange_ok", "exchange_err", "forward_hop", "loops_never_run_out_of_fuel", "readers_consume",
+    "body_tag_hypothesis_needed", "result_tag_hypothesis_needed",
 ]]
 
 M32 = 2**32
@@ -266,6 +267,58 @@ def norm_resextra(e, reqflags):
             "vn": e["vn"] if bit(f, 27) else 0}
 
 
+def px(w):
+    assert w[0] == "x"
+    return bytes.fromhex(w[1:])
+
+
+def plist(w):
+    return [] if w == "-" else w.split(",")
+
+
+def p_reqextra(w):
+    pq = w[11].split(":")
+    tc = w[12].split(":")
+    return {"flags": int(w[0]), "rid": int(w[1]),
+            "wsbp": [(px(x.split(":")[0]), int(x.split(":")[1])) for x in plist(w[2])], "wbp": int(w[3]),
+            "sfk": [px(x) for x in plist(w[4])], "ifk": [int(x) for x in plist(w[5])], "sf": px(w[6]), "if": int(w[7]),
+            "ct": int(w[8]), "scv": int(w[9]), "rd": int(w[10]), "pq": tuple([pq[0]] + [int(x) for x in pq[1:]]),
+            "tc": (int(tc[0]), int(tc[1]), int(tc[2]), int(tc[3]), px(tc[4])), "ec": px(w[13])}
+
+
+def p_resextra(w):
+    return {"flags": int(w[0]), "bp": int(w[1]), "bt": int(w[2]), "pid": tuple(int(x) for x in w[3].split(":")),
+            "rqs": int(w[4]), "rss": int(w[5]), "fs": int(w[6]), "cv": int(w[7]),
+            "stats": [(px(x.split(":")[0]), px(x.split(":")[1])) for x in plist(w[8])],
+            "sbp": [(px(x.split(":")[0]), int(x.split(":")[1])) for x in plist(w[9])], "en": int(w[10]), "vn": int(w[11])}
+
+
+def p_err(w):
+    if w == "-":
+        return None
+    p = w.split(":")
+    if p[0] == "n":
+        return ("n",)
+    if p[0] == "o":
+        return ("o", px(p[1]))
+    return (p[0], int(p[1]), px(p[2]))
+
+
+def parse_case(l):
+    """the structured content of a case line (so that replayed lines get the same oracle as generated ones)"""
+    f = l.split(" ")
+    try:
+        if f[0] in ("rpcextra.req", "rpcextra.fwd") and len(f) == 19:
+            return (int(f[1]), int(f[2]), f[3] == "1", unhex(f[4]), p_reqextra(f[5:]))
+        if f[0] == "rpcextra.resp" and len(f) == 20:
+            return (int(f[1]), int(f[2]), f[3] == "1", f[4] == "1", int(f[5]), p_err(f[6]), unhex(f[7]), p_resextra(f[8:]))
+        if f[0] == "rpcextra.e2e" and len(f) == 32:
+            return (int(f[1]), f[2] == "1", unhex(f[3]), p_reqextra(f[4:18]), p_err(f[18]), unhex(f[19]), p_resextra(f[20:]))
+    except (ValueError, IndexError, AssertionError):
+        return None
+    return None
+
+
 def req_line(q, actor, tl2, body, e):
     return "rpcextra.req %d %d %d %s %s" % (q, actor, 1 if tl2 else 0, hx(body), w_reqextra(e))
 
@@ -326,7 +379,8 @@ def mutations(rng, wire, n):
 def run(c):
     c.facts(["Rpcextra", "Prim"])
     c.lean(MODULES, THEOREMS, sources=["TLVerif.Rpcextra.Wire", "TLVerif.Rpcextra.Extras", "TLVerif.Rpcextra.Format",
-                                      "TLVerif.Rpcextra.WireLemmas", "TLVerif.Rpcextra.ExtrasLemmas", "TLVerif.Rpcextra.FormatLemmas"])
+                                      "TLVerif.Rpcextra.WireLemmas", "TLVerif.Rpcextra.ExtrasLemmas", "TLVerif.Rpcextra.FormatLemmas",
+                                      "TLVerif.Rpcextra.FuelLemmas", "TLVerif.Rpcextra.Driver"])
     model = c.model_exe()
     ov = os.path.join(ROOT, "go", "hrpcextra", "overlay", "verif_rpcextra.go")
     impl = c.harness("hrpcextra", overlays={"pkg/rpc/verif_rpcextra.go": ov})
@@ -346,13 +400,10 @@ def run(c):
 
     # ------------------------------------------------------------ phase 1: requests
     N = 1 if c.thorough else 0
-    lines = list(replay_lines)
-    meta = {}
+    lines = [l for l in replay_lines if l.startswith("rpcextra.req ") or l.startswith("rpcextra.fwd ")]
 
     def add_req(q, actor, tl2, body, e):
-        ln = req_line(q, actor, tl2, body, e)
-        lines.append(ln)
-        meta[ln] = ("req", q, actor, tl2, body, e)
+        lines.append(req_line(q, actor, tl2, body, e))
 
     # every combination of the 13 value-carrying mask bits (x both body formats in thorough)
     for m in range(1 << len(REQ_VALUE_BITS)):
@@ -370,15 +421,28 @@ def run(c):
             add_req(g.u64(), rng.choice([0, g.u64()]), tl2, g.body(REQ_WRAPPERS, tl2), g.reqextra(flags=f, consistent=rng.chance(2, 3)))
     for _ in range(30000 if c.thorough else 5000):
         add_req(g.u64(), rng.choice([0, 0, 1, g.u64(), g.u64()]), rng.chance(1, 2), g.body(REQ_WRAPPERS, False), g.reqextra())
+    # the same requests relayed once through HandlerContext.ForwardAndFlush (forward.go) before they reach the server
+    lines += ["rpcextra.fwd" + l[len("rpcextra.req"):] for l in lines[:: (4 if c.thorough else 8)] if l.startswith("rpcextra.req ")]
     res1 = c.tie("requests", lines, impl, model)
 
-    parse_lines = []
+    parse_lines = [l for l in replay_lines if l.split(" ")[0] in ("rpcextra.parse", "rpcextra.rparse", "rpcextra.xread", "rpcextra.yread")]
     for l, a, _ in res1:
-        m = meta.get(l)
+        m = parse_case(l)
         p = a.split(" ")
         if not m:
             continue
-        _, q, actor, tl2, body, e = m
+        q, actor, tl2, body, e = m
+        if l.startswith("rpcextra.fwd "):
+            # exploration of the proxy hop: extras, query id and body must survive; actor id and TL2 marker are not
+            # forwarded by forward.go (modelled as such, theorem forward_hop) and are therefore not compared
+            body_ok = len(body) >= 4 and first_word(body) not in REQ_WRAPPERS
+            if p[0] == "ok" and body_ok:
+                ne = norm_reqextra(e)
+                if " ".join(p[9:]) != w_reqextra(ne) or int(p[1]) != q or unhex(p[8]) != body:
+                    c.oracle_fail(l, "request relayed by ForwardAndFlush: extras, query id or body changed", l)
+                if actor != 0 or tl2:
+                    c.count("fwd:actor-or-tl2-marker-dropped")
+            continue
         if a == "big":
             c.count("req:big")
             continue
@@ -416,13 +480,10 @@ def run(c):
             c.oracle_fail(l, "request does not arrive unchanged at the server: differs in %s" % ",".join(diff or ["length"]), l)
 
     # ------------------------------------------------------------ phase 2: responses
-    lines2 = []
-    meta2 = {}
+    lines2 = [l for l in replay_lines if l.startswith("rpcextra.resp ")]
 
     def add_resp(q, reqflags, tl2, nores, tag, err, body, e):
-        ln = resp_line(q, reqflags, tl2, nores, tag, err, body, e)
-        lines2.append(ln)
-        meta2[ln] = (q, reqflags, tl2, nores, tag, err, body, e)
+        lines2.append(resp_line(q, reqflags, tl2, nores, tag, err, body, e))
 
     def rand_err():
         k = rng.below(10)
@@ -450,7 +511,7 @@ def run(c):
     res2 = c.tie("responses", lines2, impl, model)
 
     for l, a, _ in res2:
-        m = meta2.get(l)
+        m = parse_case(l)
         if not m:
             continue
         q, reqflags, tl2, nores, tag, err, body, e = m
@@ -534,20 +595,20 @@ def run(c):
     # raw extras readers on valid encodings, their mutations and random bytes
     for l, a, _ in res1[:: (3 if c.thorough else 9)]:
         p = a.split(" ")
-        m = meta.get(l)
+        m = parse_case(l) if l.startswith("rpcextra.req ") else None
         if m and p[0] == "ok":
             buf = unhex(p[1])
             hdr = buf[int(p[2]):]
-            e = m[5]
+            e = m[4]
             if e["flags"] != 0:
-                off = 8 + 4 + (8 if m[2] != 0 else 0)
+                off = 8 + 4 + (8 if m[1] != 0 else 0)
                 enc = hdr[off:]
                 parse_lines.append("rpcextra.xread " + hx(enc + rng.bytes(rng.below(5))))
                 for mw in mutations(rng, enc, 2):
                     parse_lines.append("rpcextra.xread " + hx(mw))
     for l, a, _ in res2[:: (3 if c.thorough else 9)]:
         p = a.split(" ")
-        m = meta2.get(l)
+        m = parse_case(l)
         if m and p[0] == "ok" and int(p[3]) != 0 and m[5] is None:
             buf = unhex(p[1])
             enc = buf[int(p[2]) + 12:]
@@ -561,8 +622,7 @@ def run(c):
     # ------------------------------------------------------------ phase 4: end-to-end loopback (exploration)
     # a real rpc.Server and rpc.Client over TCP on 127.0.0.1: client Request.Extra vs HandlerContext.RequestExtra,
     # handler ResponseExtra / error vs client Response.Extra / error
-    lines4 = []
-    meta4 = {}
+    lines4 = [l for l in replay_lines if l.startswith("rpcextra.e2e ")]
     for _ in range(12000 if c.thorough else 1500):
         tl2 = rng.chance(1, 2)
         e = g.reqextra()
@@ -592,10 +652,12 @@ def run(c):
         re_ = g.resextra()
         ln = "rpcextra.e2e %d %d %s %s %s %s %s" % (actor, 1 if tl2 else 0, hx(body), w_reqextra(e), err_word(err), hx(rbody), w_resextra(re_))
         lines4.append(ln)
-        meta4[ln] = (actor, tl2, body, e, err, rbody, re_)
     res4 = c.tie("loopback", lines4, impl, model)
     for l, a, _ in res4:
-        actor, tl2, body, e, err, rbody, re_ = meta4[l]
+        m = parse_case(l)
+        if not m:
+            continue
+        actor, tl2, body, e, err, rbody, re_ = m
         ct = e["ct"]
         refused = bit(e["flags"], 7) or (not bit(e["flags"], 23) and ct != 0) or ct >= 2**31
         if refused:
@@ -632,5 +694,5 @@ def run(c):
                        "formats, actor 0/non-0, bodies incl. too short and wrapper-tag-prefixed; response lines: all 512 combinations of the "
                        "9 response mask bits x both formats, random request masks, nil/rpc.Error(code 0 too)/wrapped/ErrNoHandler/other errors; "
                        "malformed: truncations, bit flips, inserted tags, duplicated wrappers, random bytes for the four parsers; "
-                       "loopback: random calls through a real rpc.Server/rpc.Client pair over TCP 127.0.0.1 (timeouts that cannot fire); "
+                       "fwd: a sample of the request lines relayed once through ForwardAndFlush over a handshaken TCP PacketConn pair; loopback: random calls through a real rpc.Server/rpc.Client pair over TCP 127.0.0.1 (timeouts that cannot fire); "
                        "distinct = distinct line text; every line is a different input")
